@@ -1,1 +1,729 @@
-/-! C03 — property theorems (placeholder until the model exists). -/
+import EupsModel.Lemmas.Vro
+import EupsModel.Lemmas.VroSelect
+import EupsModel.Lemmas.VroC10
+/-! C03 — the version chosen is the one the Version Resolution Order designates.
+Property theorems only; the model is `Model/Vro.lean`, helper lemmas are in `Lemmas/Vro.lean`. -/
+namespace EupsModel.C03
+open EupsModel EupsModel.Vro
+
+/-! ## a small database for the non-vacuity examples
+
+stack 0: `p 1.0` (Linux), tagged `stable`; stack 1: `p 1.0`, `p 2.0` (Linux), `p 3.0` (generic),
+`current -> 2.0` (Linux), `current -> 3.0` (generic). -/
+def sP : Str := [112]
+def sLinux : Str := [76, 105, 110, 117, 120]
+def sGeneric : Str := [103, 101, 110, 101, 114, 105, 99]
+def sCurrent : Str := [99, 117, 114, 114, 101, 110, 116]
+def sStable : Str := [115, 116, 97, 98, 108, 101]
+def sBeta : Str := [98, 101, 116, 97]
+def v10 : Str := [49, 46, 48]
+def v20 : Str := [50, 46, 48]
+def v30 : Str := [51, 46, 48]
+def v99 : Str := [57, 46, 57]
+def exDb : Db :=
+  [ { decls := [⟨sP, v10, sLinux⟩], tags := [⟨sStable, sP, sLinux, v10⟩] },
+    { decls := [⟨sP, v10, sLinux⟩, ⟨sP, v20, sLinux⟩, ⟨sP, v30, sGeneric⟩],
+      tags := [⟨sCurrent, sP, sLinux, v20⟩, ⟨sCurrent, sP, sGeneric, v30⟩] } ]
+def exCtx : Ctx := mkCtx simpleOrd [sCurrent, sStable, sBeta] exDb .files [sLinux, sGeneric] []
+def exReq (version : Option Str) (depth : Nat) : Req :=
+  { name := sP, version := version, vexpr := none, depth := depth, flavor := sLinux,
+    ignoreVersions := false, already := none }
+/-- `type:exact commandLine version versionExpr current` -/
+def defaultVro : List Str := [kTypeExact, kCommandLine, kVersion, kVersionExpr, sCurrent]
+
+/-! ## first match -/
+
+/-- `findProductFromVRO` returns a product exactly when some entry of the VRO yields one and every
+entry before it said "continue" (none yielded a product, none of the version entries gave the
+request up, none raised); the product and reason are that entry's, up to the "an earlier reason
+outranks a later one" rule for a product this command has already set up. -/
+theorem C03_first_match (C : Ctx) (r : Req) (vro : List Str) (h : Hit) :
+    find C r vro = .ok (some h) ↔
+      ∃ (h0 : Hit) (pre post : List Str),
+        vro = pre ++ h0.entry :: post ∧
+        lookupEntry C r h0.entry post = .ok (.hit h0.prod h0.reason) ∧
+        (∀ a x b, pre = a ++ x :: b → lookupEntry C r x (b ++ h0.entry :: post) = .ok .skip) ∧
+        h = applyAlready r vro h0 := by
+  unfold find
+  constructor
+  · intro hf
+    cases hw : walk C r vro with
+    | error err => simp [hw] at hf
+    | ok o =>
+      cases o with
+      | none => simp [hw] at hf
+      | some h0 =>
+        simp [hw] at hf
+        obtain ⟨pre, post, h1, h2, h3⟩ := (walk_hit_iff C r vro h0).mp hw
+        exact ⟨h0, pre, post, h1, h2, h3, hf.symm⟩
+  · rintro ⟨h0, pre, post, h1, h2, h3, rfl⟩
+    have hw := (walk_hit_iff C r vro h0).mpr ⟨pre, post, h1, h2, h3⟩
+    simp [hw]
+
+/-- With nothing set up beforehand the answer is the first matching entry's, as it stands. -/
+theorem C03_first_match_fresh (C : Ctx) (r : Req) (vro : List Str) (h : Hit) (hr : r.already = none) :
+    find C r vro = .ok (some h) ↔
+      ∃ (pre post : List Str),
+        vro = pre ++ h.entry :: post ∧
+        lookupEntry C r h.entry post = .ok (.hit h.prod h.reason) ∧
+        (∀ a x b, pre = a ++ x :: b → lookupEntry C r x (b ++ h.entry :: post) = .ok .skip) := by
+  rw [C03_first_match]
+  constructor
+  · rintro ⟨h0, pre, post, h1, h2, h3, rfl⟩
+    have : applyAlready r vro h0 = h0 := by simp [applyAlready, hr]
+    rw [this]
+    exact ⟨pre, post, h1, h2, h3⟩
+  · rintro ⟨pre, post, h1, h2, h3⟩
+    exact ⟨h, pre, post, h1, h2, h3, by simp [applyAlready, hr]⟩
+
+/-- Nothing is returned exactly when every entry said "continue", or the first entry that did not
+is a version entry giving the request up. -/
+theorem C03_no_match (C : Ctx) (r : Req) (vro : List Str) :
+    find C r vro = .ok none ↔
+      (∀ a x b, vro = a ++ x :: b → lookupEntry C r x b = .ok .skip) ∨
+      ∃ pre e post, vro = pre ++ e :: post ∧ lookupEntry C r e post = .ok .abort ∧
+        (∀ a x b, pre = a ++ x :: b → lookupEntry C r x (b ++ e :: post) = .ok .skip) := by
+  have hw := walk_none_iff C r vro
+  unfold AllSkip at hw
+  simp only [List.append_nil] at hw
+  rw [← hw]
+  unfold find
+  cases walk C r vro with
+  | error err => simp
+  | ok o => cases o <;> simp
+
+/-- non-vacuity: on the default VRO, no version named, `current` (the fifth entry) answers with the
+version tagged in stack 1 — stack 0 has no `current` — after four entries that said "continue" -/
+example : find exCtx (exReq none 0) defaultVro = .ok (some ⟨⟨v20, sLinux, 1⟩, sCurrent, sCurrent⟩) := by
+  decide
+
+/-! ## a request that names a version does not fall through -/
+
+/-- Once a request names a version or an expression, whatever stands behind the last version-type
+entry of the VRO is never consulted: looking the product up with the whole VRO gives the answer of
+the VRO cut after that entry — whatever tags follow, and whatever they are assigned to. -/
+theorem C03_named_request_never_falls_through (C : Ctx) (r : Req) (pre : List Str) (e : Str)
+    (post : List Str) (hn : r.named.isSome = true) (he : isVT e = true)
+    (hpost : ∀ x ∈ post, isVT x = false) :
+    find C r (pre ++ e :: post) = find C r (pre ++ [e]) := by
+  have hw := walk_cut C r pre e post hn he hpost
+  unfold find
+  rw [hw]
+  cases hw' : walk C r (pre ++ [e]) with
+  | error err => rfl
+  | ok o =>
+    cases o with
+    | none => rfl
+    | some h =>
+      have hm := walk_entry_mem hw'
+      have : pre ++ e :: post = (pre ++ [e]) ++ post := by simp
+      simp only [this, applyAlready_append r (pre ++ [e]) post h hm]
+
+/-- In particular: when the version entries find nothing, the request fails, whatever tags follow. -/
+theorem C03_named_request_fails (C : Ctx) (r : Req) (pre : List Str) (e : Str) (post : List Str)
+    (hn : r.named.isSome = true) (he : isVT e = true) (hpost : ∀ x ∈ post, isVT x = false)
+    (hnone : find C r (pre ++ [e]) = .ok none) : find C r (pre ++ e :: post) = .ok none := by
+  rw [C03_named_request_never_falls_through C r pre e post hn he hpost, hnone]
+
+/-- non-vacuity: `p 9.9` is not declared; `current` stands behind `versionExpr` on the default VRO
+and would answer `2.0` — the request fails instead (and `p` without a version does get `2.0`). -/
+example : (exReq (some v99) 1).named.isSome = true ∧ isVT kVersionExpr = true ∧
+    (∀ x ∈ [sCurrent], isVT x = false) ∧
+    find exCtx (exReq (some v99) 1) ([kTypeExact, kCommandLine, kVersion] ++ kVersionExpr :: [sCurrent]) = .ok none := by
+  decide
+
+/-! ## what each kind of entry yields -/
+
+theorem tagHere_none_iff (st : Stack) (t n f : Str) :
+    tagHere st t n f = none ↔
+      ∀ v, ¬ (tagVersion st t n f = some v ∧ declared st n v f = true) := by
+  rw [Option.eq_none_iff_forall_ne_some]
+  constructor
+  · intro h v hv
+    exact h v ((tagHere_some_iff st t n f v).mpr hv)
+  · intro h v hv
+    exact h v ((tagHere_some_iff st t n f v).mp hv)
+
+/-- A tag entry yields the version carrying that tag in the first stack on the path that has it —
+"has it" meaning: the stack's chain file assigns the tag, for the flavor asked, to a version the
+stack declares for that flavor.  The reason reported is the tag. -/
+theorem C03_tag_entry (C : Ctx) (r : Req) (e : Str) (post : List Str) (p : Prod) (reason : Str)
+    (ht : isPlainTag C e = true) :
+    lookupEntry C r e post = .ok (.hit p reason) ↔
+      reason = e ∧ p.flavor = r.flavor ∧
+      (∃ st, C.db[p.stack]? = some st ∧ tagVersion st e r.name r.flavor = some p.version ∧
+          declared st r.name p.version r.flavor = true) ∧
+      ∀ (j : Nat) (st' : Stack), j < p.stack → C.db[j]? = some st' →
+        ∀ v, ¬ (tagVersion st' e r.name r.flavor = some v ∧ declared st' r.name v r.flavor = true) := by
+  rw [lookupEntry_plainTag post ht]
+  cases hl : lookupTag C.db e r.name r.flavor with
+  | none =>
+    simp only [Except.ok.injEq, reduceCtorEq, false_iff]
+    rintro ⟨_, hf, hst, hmin⟩
+    have : lookupTag C.db e r.name r.flavor = some p := by
+      apply (lookupTag_some_iff ..).mpr
+      obtain ⟨st, h1, h2, h3⟩ := hst
+      refine ⟨hf, ⟨st, h1, (tagHere_some_iff ..).mpr ⟨h2, h3⟩⟩, ?_⟩
+      intro j st' hj hget
+      exact (tagHere_none_iff ..).mpr (hmin j st' hj hget)
+    rw [hl] at this
+    cases this
+  | some q =>
+    simp only [Except.ok.injEq, Outcome.hit.injEq]
+    constructor
+    · rintro ⟨hq, hr⟩
+      subst hq
+      obtain ⟨hf, ⟨st, h1, h2⟩, hmin⟩ := (lookupTag_some_iff ..).mp hl
+      obtain ⟨h2, h3⟩ := (tagHere_some_iff ..).mp h2
+      refine ⟨hr.symm, hf, ⟨st, h1, h2, h3⟩, ?_⟩
+      intro j st' hj hget
+      exact (tagHere_none_iff ..).mp (hmin j st' hj hget)
+    · rintro ⟨hr, hf, ⟨st, h1, h2, h3⟩, hmin⟩
+      have : lookupTag C.db e r.name r.flavor = some p := by
+        apply (lookupTag_some_iff ..).mpr
+        refine ⟨hf, ⟨st, h1, (tagHere_some_iff ..).mpr ⟨h2, h3⟩⟩, ?_⟩
+        intro j st' hj hget
+        exact (tagHere_none_iff ..).mpr (hmin j st' hj hget)
+      rw [hl] at this
+      cases this
+      exact ⟨rfl, hr.symm⟩
+
+/-- ... and says "continue" exactly when no stack has it; it never gives the request up. -/
+theorem C03_tag_entry_absent (C : Ctx) (r : Req) (e : Str) (post : List Str) (ht : isPlainTag C e = true) :
+    (lookupEntry C r e post = .ok .skip ↔
+      ∀ st ∈ C.db, ∀ v, ¬ (tagVersion st e r.name r.flavor = some v ∧ declared st r.name v r.flavor = true)) ∧
+    lookupEntry C r e post ≠ .ok .abort := by
+  rw [lookupEntry_plainTag post ht]
+  cases hl : lookupTag C.db e r.name r.flavor with
+  | none =>
+    refine ⟨⟨fun _ st hst => ?_, fun _ => rfl⟩, by simp⟩
+    have : firstStack (fun st => tagHere st e r.name r.flavor) 0 C.db = none := by
+      simpa [lookupTag] using hl
+    exact (tagHere_none_iff ..).mp ((firstStack_none_iff _ 0 C.db).mp this st hst)
+  | some q =>
+    refine ⟨⟨fun h => by simp at h, fun h => ?_⟩, by simp⟩
+    obtain ⟨_, ⟨st, h1, h2⟩, _⟩ := (lookupTag_some_iff ..).mp hl
+    exact absurd ((tagHere_some_iff ..).mp h2) (h st (List.mem_of_getElem? h1) q.version)
+
+/-- non-vacuity: `current` is an ordinary tag of the example context -/
+example : isPlainTag exCtx sCurrent = true := by decide
+
+/-- A version entry yields the explicitly named version from the first stack declaring it for the
+flavor; the reason reported is `commandLine` at the top level and `version` below it. -/
+theorem C03_version_entry (C : Ctx) (r : Req) (e v : Str) (post : List Str) (p : Prod) (reason : Str)
+    (he : isVT e = true) (hv : r.named = some v) (hex : isExpr v = .ok false)
+    (hx : e = kVersionExpr → r.vexpr = none) :
+    lookupEntry C r e post = .ok (.hit p reason) ↔
+      reason = (if r.depth == 0 then kCommandLine else kVersion) ∧
+      p.version = v ∧ p.flavor = r.flavor ∧
+      (∃ st, C.db[p.stack]? = some st ∧ declared st r.name v r.flavor = true) ∧
+      ∀ (j : Nat) (st' : Stack), j < p.stack → C.db[j]? = some st' → declared st' r.name v r.flavor = false := by
+  rw [lookupEntry_vt he, hv]
+  simp only
+  rw [lookupVT_explicit post hex hx]
+  cases hl : lookupVersion C.db r.name v r.flavor with
+  | none =>
+    have hne : ¬ ((if post.any isVT = true then (Except.ok Outcome.skip : Except Err Outcome) else .ok .abort)
+        = .ok (.hit p reason)) := by
+      split <;> simp
+    simp only [hne, false_iff, not_and]
+    intro _ h1 h2 h3 h4
+    have : lookupVersion C.db r.name v r.flavor = some p := (lookupVersion_some_iff ..).mpr ⟨h1, h2, h3, h4⟩
+    rw [hl] at this
+    cases this
+  | some q =>
+    simp only [Except.ok.injEq, Outcome.hit.injEq]
+    constructor
+    · rintro ⟨rfl, rfl⟩
+      exact ⟨rfl, (lookupVersion_some_iff ..).mp hl⟩
+    · rintro ⟨rfl, h⟩
+      have : lookupVersion C.db r.name v r.flavor = some p := (lookupVersion_some_iff ..).mpr h
+      rw [hl] at this
+      cases this
+      exact ⟨rfl, rfl⟩
+
+/-- When no stack declares the named version, the entry hands over to a later version-type entry
+if there is one and gives the request up otherwise — it never lets the walk go on to the tags. -/
+theorem C03_version_entry_absent (C : Ctx) (r : Req) (e v : Str) (post : List Str)
+    (he : isVT e = true) (hv : r.named = some v) (hex : isExpr v = .ok false)
+    (hx : e = kVersionExpr → r.vexpr = none)
+    (habs : ∀ st ∈ C.db, declared st r.name v r.flavor = false) :
+    lookupEntry C r e post = .ok (if post.any isVT then .skip else .abort) := by
+  rw [lookupEntry_vt he, hv]
+  simp only
+  rw [lookupVT_explicit post hex hx, (lookupVersion_none_iff ..).mpr habs]
+  by_cases hp : post.any isVT = true <;> simp [hp]
+
+/-- non-vacuity: `p 1.0` at depth 1 on the example database: stack 0 declares it -/
+example : isVT kVersion = true ∧ (exReq (some v10) 1).named = some v10 ∧ isExpr v10 = .ok false ∧
+    lookupEntry exCtx (exReq (some v10) 1) kVersion [kVersionExpr, sCurrent] = .ok (.hit ⟨v10, sLinux, 0⟩ kVersion) := by
+  decide
+
+/-- An expression entry yields the highest declared version satisfying the expression: when some
+stack declares, for the flavor, a version that satisfies it, the `versionExpr` entry answers with a
+satisfying version, taken from the first stack in which it satisfies, such that no satisfying
+version anywhere on the path is newer.  (`GoodOrdOn P`: the order properties of `version_cmp` on a class
+`P` of names containing every declared version name; `C03_expr_entry_is_max_conv` instantiates it
+with C10's comparator on conventional names.) -/
+theorem C03_expr_entry_is_max (C : Ctx) (P : Str → Prop) (g : GoodOrdOn P C.ord.cmp) (hP : DeclIn P C.db)
+    (r : Req) (v : Str) (post : List Str) (hv : r.named = some v) (hex : isExpr v = .ok true)
+    (hsat : ∃ st ∈ C.db, ∃ w, declared st r.name w r.flavor = true ∧ C.ord.vmatch w v = true) :
+    ∃ p, lookupEntry C r kVersionExpr post = .ok (.hit p kVersionExpr) ∧
+      p.flavor = r.flavor ∧
+      (∃ st, C.db[p.stack]? = some st ∧ declared st r.name p.version r.flavor = true ∧
+          C.ord.vmatch p.version v = true ∧
+          ∀ (j : Nat) (st' : Stack), j < p.stack → C.db[j]? = some st' →
+            ¬ (declared st' r.name p.version r.flavor = true ∧ C.ord.vmatch p.version v = true)) ∧
+      ∀ (j : Nat) (st : Stack) (w : Str), C.db[j]? = some st → declared st r.name w r.flavor = true →
+        C.ord.vmatch w v = true → C.ord.cmp w p.version ≤ 0 := by
+  rw [lookupEntry_vt isVT_versionExpr, hv]
+  simp only
+  rw [lookupVT_expr post hex (named_nonempty hv)]
+  cases hl : lookupExpr C.ord C.db r.name r.flavor v with
+  | none =>
+    obtain ⟨st, hst, w, h1, h2⟩ := hsat
+    exact absurd ⟨h1, h2⟩ (lookupExpr_none hl st hst w)
+  | some p =>
+    obtain ⟨h1, ⟨st, h2, h3, h4⟩, h5⟩ := lookupExpr_some g hP hl
+    refine ⟨p, rfl, h1, ⟨st, h2, h3.1, h3.2, h4⟩, ?_⟩
+    intro j st' w hj hd hm
+    exact h5 j st' w hj ⟨hd, hm⟩
+
+/-- When no declared version satisfies the expression (and none is literally named like it), the
+entry hands over to a later version-type entry or gives the request up. -/
+theorem C03_expr_entry_absent (C : Ctx) (r : Req) (v : Str) (post : List Str)
+    (hv : r.named = some v) (hex : isExpr v = .ok true)
+    (hnone : ∀ st ∈ C.db, ∀ w, ¬ (declared st r.name w r.flavor = true ∧ C.ord.vmatch w v = true))
+    (hlit : ∀ st ∈ C.db, declared st r.name v r.flavor = false) :
+    lookupEntry C r kVersionExpr post = .ok (if post.any isVT then .skip else .abort) := by
+  rw [lookupEntry_vt isVT_versionExpr, hv]
+  simp only
+  rw [lookupVT_expr post hex (named_nonempty hv)]
+  cases hl : lookupExpr C.ord C.db r.name r.flavor v with
+  | none =>
+    simp only
+    rw [(lookupVersion_none_iff ..).mpr hlit]
+    by_cases hp : post.any isVT = true <;> simp [hp]
+  | some p =>
+    obtain ⟨_, ⟨st, h2, h3, _⟩, _⟩ :=
+      selectLatest_some hl |> fun ⟨a, b, c⟩ => (⟨a, (mem_exprCands ..).mp b, c⟩ :
+        p.flavor = r.flavor ∧ (∃ st, C.db[p.stack]? = some st ∧ satisfies C.ord.vmatch st r.name r.flavor v p.version ∧ _) ∧ _)
+    exact absurd h3 (hnone st (List.mem_of_getElem? h2) p.version)
+
+/-- An expression at a `version` / `version!` entry is left for the `versionExpr` entry if one
+follows; otherwise the request is given up there and then. -/
+theorem C03_expr_at_version_entry (C : Ctx) (r : Req) (e v : Str) (post : List Str)
+    (he : e = kVersion ∨ e = kVersionBang) (hv : r.named = some v) (hex : isExpr v = .ok true) :
+    lookupEntry C r e post = .ok (if post.contains kVersionExpr then .skip else .abort) := by
+  have hvt : isVT e = true := by rcases he with rfl | rfl <;> decide
+  have hne : (e != kVersionExpr) = true := by rcases he with rfl | rfl <;> decide
+  rw [lookupEntry_vt hvt, hv]
+  simp only [lookupVT, hex, hne, Bool.and_self, if_true]
+  split <;> rfl
+
+/-- the order hypotheses are satisfiable: any comparison by a numeric key is a `GoodOrd`
+(here: the decimal value of the name) -/
+example : GoodOrd (fun a b => (Str.toNat a : Int) - Str.toNat b) :=
+  ⟨fun a _ => by simp, fun a b _ _ h => by omega, fun a b c _ _ _ h1 h2 => by omega⟩
+
+/-- ... and so is the dotted-decimal order the correspondence runs and the examples use -/
+example : GoodOrd exCtx.ord.cmp := simpleCmp_good
+
+/-- non-vacuity: `p >= 2.0` on the example database (flavor Linux) is answered by `versionExpr`
+with 2.0 from stack 1; `3.0` exists for the other flavor only -/
+example : lookupEntry exCtx (exReq (some [62, 61, 32, 50, 46, 48]) 1) kVersionExpr [sCurrent]
+    = .ok (.hit ⟨v20, sLinux, 1⟩ kVersionExpr) := by decide
+
+/-- `latest` is not "the first stack that has the tag": it yields a declared version such that no
+version declared anywhere on the path (for the flavor) is newer; it says "continue" only when
+nothing is declared.  (`latest` reads `Ctx.dbLatest`: `_findLatestProduct` ignores `noCache`.) -/
+theorem C03_latest_entry_is_max (C : Ctx) (P : Str → Prop) (g : GoodOrdOn P C.ord.cmp) (hP : DeclIn P C.dbLatest)
+    (r : Req) (post : List Str) (hl : C.recognized kLatest = true) :
+    (∀ p reason, lookupEntry C r kLatest post = .ok (.hit p reason) →
+      reason = kLatest ∧ p.flavor = r.flavor ∧
+      (∃ st, C.dbLatest[p.stack]? = some st ∧ declared st r.name p.version r.flavor = true) ∧
+      ∀ (j : Nat) (st : Stack) (w : Str), C.dbLatest[j]? = some st → declared st r.name w r.flavor = true →
+        C.ord.cmp w p.version ≤ 0) ∧
+    (lookupEntry C r kLatest post = .ok .skip →
+      ∀ st ∈ C.dbLatest, ∀ w, declared st r.name w r.flavor = false) ∧
+    lookupEntry C r kLatest post ≠ .ok .abort := by
+  have hentry : lookupEntry C r kLatest post =
+      .ok (match lookupLatest C.ord.cmp C.dbLatest r.name r.flavor with
+           | some p => .hit p kLatest
+           | none => .skip) := by
+    cases hll : lookupLatest C.ord.cmp C.dbLatest r.name r.flavor <;>
+      simp [lookupEntry, show (kLatest == kPath) = false by decide, show (kLatest == kKeep) = false by decide,
+        show (kLatest == kCommandLine) = false by decide, show isVT kLatest = false by decide,
+        show isWarn kLatest = false by decide, show colon ∉ kLatest by decide, hl,
+        show (kLatest == kSetup) = false by decide, lookupTagEntry, hll]
+  rw [hentry]
+  cases hll : lookupLatest C.ord.cmp C.dbLatest r.name r.flavor with
+  | none =>
+    refine ⟨by intro p reason h; simp at h, ?_, by simp⟩
+    intro _
+    exact lookupLatest_none g hP hll
+  | some q =>
+    refine ⟨?_, by intro h; simp at h, by simp⟩
+    intro p reason h
+    simp only [Except.ok.injEq, Outcome.hit.injEq] at h
+    obtain ⟨rfl, rfl⟩ := h
+    obtain ⟨h1, h2, h3⟩ := lookupLatest_some g hP hll
+    exact ⟨rfl, h1, h2, h3⟩
+
+/-- non-vacuity: in the example database the newest Linux version, 2.0, is in the second stack -/
+example : lookupEntry exCtx (exReq none 0) kLatest [] = .ok (.hit ⟨v20, sLinux, 1⟩ kLatest) := by decide
+
+/-! ## with C10's comparator: unconditional on conventional version names -/
+
+/-- `C03_expr_entry_is_max` with the model of `version_cmp` / `version_match` that C10 verifies
+(`c10Ord`), for databases whose version names are conventional (`convName`): no hypothesis on the
+order is left — C10's `C10_refl`, `C10_conv_total`, `C10_conv_trans` discharge it. -/
+theorem C03_expr_entry_is_max_conv (C : Ctx) (hord : C.ord = c10Ord) (hconv : DeclIn ConvName C.db)
+    (r : Req) (v : Str) (post : List Str) (hv : r.named = some v) (hex : isExpr v = .ok true)
+    (hsat : ∃ st ∈ C.db, ∃ w, declared st r.name w r.flavor = true ∧ c10Match w v = true) :
+    ∃ p, lookupEntry C r kVersionExpr post = .ok (.hit p kVersionExpr) ∧
+      p.flavor = r.flavor ∧
+      (∃ st, C.db[p.stack]? = some st ∧ declared st r.name p.version r.flavor = true ∧
+          c10Match p.version v = true ∧
+          ∀ (j : Nat) (st' : Stack), j < p.stack → C.db[j]? = some st' →
+            ¬ (declared st' r.name p.version r.flavor = true ∧ c10Match p.version v = true)) ∧
+      ∀ (j : Nat) (st : Stack) (w : Str), C.db[j]? = some st → declared st r.name w r.flavor = true →
+        c10Match w v = true → c10Cmp w p.version ≤ 0 := by
+  have g : GoodOrdOn ConvName C.ord.cmp := by rw [hord]; exact c10Cmp_good
+  have := C03_expr_entry_is_max C ConvName g hconv r v post hv hex (by rw [hord]; exact hsat)
+  rw [hord] at this
+  exact this
+
+/-- ... and `latest` likewise -/
+theorem C03_latest_entry_is_max_conv (C : Ctx) (hord : C.ord = c10Ord) (hconv : DeclIn ConvName C.dbLatest)
+    (r : Req) (post : List Str) (hl : C.recognized kLatest = true) :
+    (∀ p reason, lookupEntry C r kLatest post = .ok (.hit p reason) →
+      reason = kLatest ∧ p.flavor = r.flavor ∧
+      (∃ st, C.dbLatest[p.stack]? = some st ∧ declared st r.name p.version r.flavor = true) ∧
+      ∀ (j : Nat) (st : Stack) (w : Str), C.dbLatest[j]? = some st → declared st r.name w r.flavor = true →
+        c10Cmp w p.version ≤ 0) ∧
+    (lookupEntry C r kLatest post = .ok .skip →
+      ∀ st ∈ C.dbLatest, ∀ w, declared st r.name w r.flavor = false) ∧
+    lookupEntry C r kLatest post ≠ .ok .abort := by
+  have g : GoodOrdOn ConvName C.ord.cmp := by rw [hord]; exact c10Cmp_good
+  have := C03_latest_entry_is_max C ConvName g hconv r post hl
+  rw [hord] at this
+  exact this
+
+/-- non-vacuity: the example database has conventional version names, and with C10's comparator
+`p >= 2.0` is answered by 2.0 from stack 1 -/
+def exCtxC10 : Ctx := mkCtx c10Ord [sCurrent, sStable, sBeta] exDb .files [sLinux, sGeneric] []
+example : DeclIn ConvName exCtxC10.db := by
+  intro st hst d hd
+  simp only [exCtxC10, mkCtx, exDb, List.mem_cons, List.not_mem_nil, or_false] at hst
+  rcases hst with rfl | rfl
+  · simp only [List.mem_cons, List.not_mem_nil, or_false] at hd
+    subst hd; show VersionCmp.convName _ = true; decide
+  · simp only [List.mem_cons, List.not_mem_nil, or_false] at hd
+    rcases hd with rfl | rfl | rfl <;> (show VersionCmp.convName _ = true; decide)
+example : lookupEntry exCtxC10 (exReq (some [62, 61, 32, 50, 46, 48]) 1) kVersionExpr [sCurrent]
+    = .ok (.hit ⟨v20, sLinux, 1⟩ kVersionExpr) := by decide
+
+/-! ## the flavor loop -/
+
+/-- The flavor loop answers with a native-flavor declaration when one resolves: if the VRO walk for
+the native flavor yields a product (one that the top level accepts: no other version than an
+explicitly named one), that product is the answer, and it is of the native flavor — the fallback
+flavors are not consulted. -/
+theorem C03_native_flavor_first (C : Ctx) (r : Req) (keep : Bool) (vro : List Str) (native : Str)
+    (rest : List Str) (h : Hit) (hr : r.already = none)
+    (hf : find C { r with flavor := native } vro = .ok (some h))
+    (hacc : acceptableB r h = .ok true) :
+    resolve C r keep vro (native :: rest) = .ok (some h) ∧ h.prod.flavor = native := by
+  have hr' : ({ r with flavor := native } : Req).already = none := hr
+  have hacc' : acceptableB { r with flavor := native } h = .ok true := hacc
+  constructor
+  · unfold resolve
+    rw [resolveFlavor_of_find_some hf hacc']
+  · rw [find_eq_walk vro hr'] at hf
+    exact walk_flavor hr' hf
+
+/-- ... and with the fallback declaration otherwise: when nothing resolves for the native flavor the
+answer is that of the remaining flavors, in their order. -/
+theorem C03_fallback_when_native_absent (C : Ctx) (r : Req) (keep : Bool) (vro : List Str) (native : Str)
+    (rest : List Str) (hr : r.already = none)
+    (hf : find C { r with flavor := native } vro = .ok none) :
+    resolve C r keep vro (native :: rest) = resolve C r keep vro rest := by
+  have hr' : ({ r with flavor := native } : Req).already = none := hr
+  conv => lhs; unfold resolve
+  rw [resolveFlavor_of_find_none hr' hf]
+
+/-- the recursion of the flavor loop never runs out of the fuel `resolve` gives it (so `outOfFuel`
+is never the model's answer) -/
+theorem C03_resolve_fuel_enough (C : Ctx) (r : Req) (keep : Bool) (vro : List Str) (flavors : List Str) :
+    resolve C r keep vro flavors ≠ .error .outOfFuel := by
+  induction flavors with
+  | nil => simp [resolve]
+  | cons fl rest ih =>
+    unfold resolve
+    split
+    · rename_i e he
+      intro hc; cases hc
+      exact resolveFlavor_fuel C _ keep _ vro (Nat.lt_succ_self _) he
+    · simp
+    · exact ih
+
+/-- non-vacuity: `p >= 2.0`: 2.0 (Linux, stack 1) wins over 3.0 (generic);
+`p >= 3.0`: nothing for Linux, the generic 3.0 is used -/
+example : resolve exCtx (exReq (some [62, 61, 32, 50, 46, 48]) 0) false defaultVro [sLinux, sGeneric]
+    = .ok (some ⟨⟨v20, sLinux, 1⟩, kVersionExpr, kVersionExpr⟩) := by decide
+example : resolve exCtx (exReq (some [62, 61, 32, 51, 46, 48]) 0) false defaultVro [sLinux, sGeneric]
+    = .ok (some ⟨⟨v30, sGeneric, 1⟩, kVersionExpr, kVersionExpr⟩) := by decide
+
+/-! ## through the cache (D16, repaired by 9143b09) -/
+
+/-- Through the cache — whatever was accepted or rebuilt, `noCache=True` on a cached instance
+(`Mode.mixed`) included — `findProductFromVRO` gives, for every flavor the process loads (the native
+flavor and its fallbacks), the answer it gives through the files. -/
+theorem C03_cache_view_agrees (o : Ord) (tags : List Str) (db : Db) (loaded : List Str)
+    (accepted : List Bool) (r : Req) (vro : List Str) (m : Mode)
+    (hyp : (∀ b ∈ accepted, b = false) ∨ r.flavor ∈ loaded) :
+    find (mkCtx o tags db m loaded accepted) r vro = find (mkCtx o tags db .files loaded accepted) r vro := by
+  rcases hyp with h | h
+  · have := cacheView_all_rebuilt loaded accepted db h
+    cases m <;> simp [mkCtx, this]
+  · have hv : ViewsAgree r.flavor (cacheView loaded accepted db) db := cacheView_agree h accepted db
+    cases m
+    · rfl
+    · exact find_view_congr (C := mkCtx o tags db .cache loaded accepted)
+        (C' := mkCtx o tags db .files loaded accepted) rfl rfl hv hv vro
+    · exact find_view_congr (C := mkCtx o tags db .mixed loaded accepted)
+        (C' := mkCtx o tags db .files loaded accepted) rfl rfl (viewsAgree_refl _ _) hv vro
+
+/-- The flavor loop through the cache is the flavor loop through the files: the process loads the
+native flavor and its fallbacks, which are the flavors the loop visits, so whatever stacks had their
+cache accepted or rebuilt the answer is the same — no hypothesis on the load outcome is left. -/
+theorem C03_fallback_via_cache (o : Ord) (tags : List Str) (db : Db) (native : Str) (fallbacks : List Str)
+    (accepted : List Bool) (r : Req) (keep : Bool) (vro : List Str) (m : Mode) :
+    resolve (mkCtx o tags db m (native :: fallbacks) accepted) r keep vro (native :: fallbacks) =
+      resolve (mkCtx o tags db .files (native :: fallbacks) accepted) r keep vro (native :: fallbacks) := by
+  cases m
+  · rfl
+  · exact resolve_view_congr (C := mkCtx o tags db .cache (native :: fallbacks) accepted)
+      (C' := mkCtx o tags db .files (native :: fallbacks) accepted) r keep vro _ rfl rfl
+      (fun f hf => cacheView_agree hf accepted db) (fun f hf => cacheView_agree hf accepted db)
+  · exact resolve_view_congr (C := mkCtx o tags db .mixed (native :: fallbacks) accepted)
+      (C' := mkCtx o tags db .files (native :: fallbacks) accepted) r keep vro _ rfl rfl
+      (fun f _ => viewsAgree_refl f db) (fun f hf => cacheView_agree hf accepted db)
+
+/-- so a native-flavor declaration is preferred, and the fallback used otherwise, through the cache as
+through the files: `C03_native_flavor_first` read through any cache view -/
+theorem C03_native_flavor_first_via_cache (o : Ord) (tags : List Str) (db : Db) (native : Str)
+    (fallbacks : List Str) (accepted : List Bool) (m : Mode) (r : Req) (keep : Bool) (vro : List Str) (h : Hit)
+    (hr : r.already = none)
+    (hf : find (mkCtx o tags db .files (native :: fallbacks) accepted) { r with flavor := native } vro = .ok (some h))
+    (hacc : acceptableB r h = .ok true) :
+    resolve (mkCtx o tags db m (native :: fallbacks) accepted) r keep vro (native :: fallbacks) = .ok (some h) ∧
+      h.prod.flavor = native := by
+  rw [C03_fallback_via_cache]
+  exact C03_native_flavor_first _ r keep vro native fallbacks h hr hf hacc
+
+/-- On the pinned tree (before 9143b09) the clause was false (D16): `p 3.0` is declared for the fallback
+flavor only; a fresh process that accepts the cache of the stack reads it for the native flavor alone
+(`mkCtxPinned`) and does not see the declaration, the files do. -/
+theorem C03_fallback_via_cache_witness :
+    let db : Db := [{ decls := [⟨sP, v20, sLinux⟩, ⟨sP, v30, sGeneric⟩], tags := [⟨sCurrent, sP, sGeneric, v30⟩] }]
+    let r : Req := { exReq none 0 with flavor := sGeneric }
+    find (mkCtxPinned simpleOrd [sCurrent] db .cache sLinux [true]) r defaultVro = .ok none ∧
+    find (mkCtxPinned simpleOrd [sCurrent] db .files sLinux [true]) r defaultVro
+      = .ok (some ⟨⟨v30, sGeneric, 0⟩, sCurrent, sCurrent⟩) ∧
+    resolve (mkCtxPinned simpleOrd [sCurrent] db .cache sLinux [true]) { exReq (some v30) 0 with } false defaultVro
+      [sLinux, sGeneric] = .ok none ∧
+    resolve (mkCtxPinned simpleOrd [sCurrent] db .files sLinux [true]) { exReq (some v30) 0 with } false defaultVro
+      [sLinux, sGeneric] = .ok (some ⟨⟨v30, sGeneric, 0⟩, kCommandLine, kVersion⟩) ∧
+    -- the repaired rule on the same input sees it
+    resolve (mkCtx simpleOrd [sCurrent] db .cache [sLinux, sGeneric] [true]) { exReq (some v30) 0 with } false
+      defaultVro [sLinux, sGeneric] = .ok (some ⟨⟨v30, sGeneric, 0⟩, kCommandLine, kVersion⟩) := by
+  decide
+
+/-! ## where `selectVRO` puts the -t and -T tags (default configuration) -/
+
+/-- example configuration: hooks.py as shipped, global tags `current stable beta`, a fresh instance -/
+def exCfg (keep exact : Bool) : VroCfg :=
+  { vroDict := [(kDefault, .flat defaultBase)], userVRO := false, keep := keep, exact := exact,
+    globalTags := [kCurrent, sStable, sBeta], cmdTags := [],
+    prevPreferred := [kVersion, kVersionExpr, kCurrent, sStable, kLatest] }
+def exArgs (tags postTags : List Str) (version : Bool) : VroArgs :=
+  { tags := tags, productDir := false, versionName := version, dbz := none, inexact := false, postTags := postTags }
+
+/-- Under the default configuration, with any -t and -T tags (registered global tags), keep / exact /
+inexact / version / -r in any combination, `selectVRO` succeeds and every -t tag stands on the
+resulting VRO behind nothing but `keep`, `type:exact`, `commandLine` and other -t tags — in
+particular in front of every version-type entry. -/
+theorem C03_pretag_before_version (c : VroCfg) (a : VroArgs) (d : DefaultCfg c)
+    (ht : ∀ t ∈ a.tags, GoodTag c t) (hp : ∀ t ∈ a.postTags, GoodTag c t) :
+    ∃ out, selectVRO c a = .ok out ∧
+      ∀ t ∈ a.tags, ∃ pre post, out.vro = pre ++ t :: post ∧
+        ∀ x ∈ pre, (x ∈ [kKeep, kTypeExact, kCommandLine] ∨ x ∈ a.tags) ∧ isVT x = false := by
+  obtain ⟨out, hsel, hvro⟩ := selectVRO_default d a ht hp
+  refine ⟨out, hsel, ?_⟩
+  intro t htm
+  have hnw := noWarn_placed (keep := c.keep) ht hp
+  have hm : movedByExact c a.tags t = false := by
+    rw [(ht t htm).moved]; simp [htm]
+  have hne : t ≠ kTypeExact := by
+    intro h; have := (ht t htm).noColon; rw [h] at this; revert this; decide
+  obtain ⟨pre, post, h1, h2⟩ := beforeP_cleanVro d a.tags a.inexact hnw hm hne (beforeP_placed c.keep a.tags a.postTags htm)
+  refine ⟨pre, post, by rw [hvro, h1], ?_⟩
+  intro x hx
+  refine ⟨h2 x hx, ?_⟩
+  rcases h2 x hx with h | h
+  · simp only [List.mem_cons, List.not_mem_nil, or_false] at h
+    rcases h with rfl | rfl | rfl <;> decide
+  · exact (ht x h).isVT
+
+/-- ... and no version-type entry stands behind a -T tag (one that is not also given with -t); the
+tag is on the VRO, and so are `version` and `versionExpr`. -/
+theorem C03_posttag_after_version (c : VroCfg) (a : VroArgs) (d : DefaultCfg c)
+    (ht : ∀ t ∈ a.tags, GoodTag c t) (hp : ∀ t ∈ a.postTags, GoodTag c t) :
+    ∃ out, selectVRO c a = .ok out ∧ kVersion ∈ out.vro ∧ kVersionExpr ∈ out.vro ∧
+      ∀ y ∈ a.postTags, y ∉ a.tags →
+        y ∈ out.vro ∧ ∀ pre post, out.vro = pre ++ y :: post → ∀ x ∈ post, isVT x = false := by
+  obtain ⟨out, hsel, hvro⟩ := selectVRO_default d a ht hp
+  have hnw := noWarn_placed (keep := c.keep) ht hp
+  have hv := kVersion_mem_placed c.keep a.tags a.postTags
+  refine ⟨out, hsel, ?_, ?_, ?_⟩
+  · rw [hvro]; exact mem_cleanVro_of_mem d a.tags a.inexact hnw hv.1 (by decide)
+  · rw [hvro]; exact mem_cleanVro_of_mem d a.tags a.inexact hnw hv.2 (by decide)
+  · intro y hy hyt
+    have gy := hp y hy
+    have hne : y ≠ kTypeExact := by
+      intro h; have := gy.noColon; rw [h] at this; revert this; decide
+    have hm : movedByExact c a.tags y = true := by
+      rw [gy.moved]; simpa using hyt
+    have hvt : ∀ x, isVT x = true → movedByExact c a.tags x = false :=
+      fun x hx => fixed_not_moved d a.tags (isVT_fixed hx)
+    constructor
+    · rw [hvro]
+      apply mem_cleanVro_of_mem d a.tags a.inexact hnw _ hne
+      simp [placed, hy]
+    · rw [hvro]
+      exact noVTBehind_cleanVro d a.tags a.inexact hnw hm hvt (noVTBehind_placed c.keep hp gy hyt)
+
+/-- non-vacuity: the example configuration is a default configuration, `beta` and `stable` are good
+tags, and `setup --keep -t beta -T stable p 1.0` gives
+`keep type:exact commandLine beta version versionExpr stable current` -/
+example : DefaultCfg (exCfg true false) :=
+  ⟨rfl, rfl, rfl, by decide, by
+    intro t h
+    have : t = kCurrent ∨ t = sStable ∨ t = sBeta := by simpa [exCfg] using h
+    rcases this with rfl | rfl | rfl <;> decide⟩
+example : GoodTag (exCfg true false) sBeta ∧ GoodTag (exCfg true false) sStable :=
+  ⟨⟨by decide, by decide, by decide, by decide⟩, ⟨by decide, by decide, by decide, by decide⟩⟩
+example : (selectVRO (exCfg true false) (exArgs [sBeta] [sStable] true)).map (·.vro)
+    = .ok [kKeep, kTypeExact, kCommandLine, sBeta, kVersion, kVersionExpr, sStable, kCurrent] := by decide
+/-- with `--exact`, tags not given with -t go to the end, behind `warn:1` -/
+example : (selectVRO (exCfg false true) (exArgs [sBeta] [sStable] false)).map (·.vro)
+    = .ok [kTypeExact, kCommandLine, sBeta, kVersion, kVersionExpr, sStable, kCurrent] := by decide
+
+/-- Pre-tags override table versions: below the top level, with nothing set up beforehand, if `x` is
+the only -t tag that designates a version of the product, that version is the answer on the VRO
+`selectVRO` built — whatever version (or expression) the table names. -/
+theorem C03_pretag_overrides_table_version (c : VroCfg) (a : VroArgs) (d : DefaultCfg c)
+    (ht : ∀ t ∈ a.tags, GoodTag c t) (hp : ∀ t ∈ a.postTags, GoodTag c t)
+    (out : VroOut) (hsel : selectVRO c a = .ok out)
+    (C : Ctx) (r : Req) (hr : r.already = none) (hdepth : 0 < r.depth)
+    (hplain : ∀ t ∈ a.tags, isPlainTag C t = true)
+    (x : Str) (hx : x ∈ a.tags) (p : Prod) (hxp : lookupTag C.db x r.name r.flavor = some p)
+    (hothers : ∀ t ∈ a.tags, t ≠ x → lookupTag C.db t r.name r.flavor = none) :
+    find C r out.vro = .ok (some ⟨p, x, x⟩) := by
+  obtain ⟨out', hsel', hpos⟩ := C03_pretag_before_version c a d ht hp
+  rw [hsel] at hsel'
+  cases hsel'
+  obtain ⟨A, B, hAB, hxA, hA⟩ := beforeP_first (P := fun y => (y ∈ [kKeep, kTypeExact, kCommandLine] ∨ y ∈ a.tags) ∧ isVT y = false)
+    (hpos x hx)
+  rw [find_eq_walk _ hr]
+  apply (walk_hit_iff C r out.vro ⟨p, x, x⟩).mpr
+  refine ⟨A, B, hAB, ?_, ?_⟩
+  · show lookupEntry C r x B = _
+    rw [lookupEntry_plainTag B (hplain x hx), hxp]
+  · intro a0 e b hsplit
+    have heA : e ∈ A := by rw [hsplit]; simp
+    obtain ⟨hmem, _⟩ := hA e heA
+    rcases hmem with h | h
+    · simp only [List.mem_cons, List.not_mem_nil, or_false] at h
+      rcases h with rfl | rfl | rfl
+      · have : (0 < r.depth) = True := by simp [hdepth]
+        simp [lookupEntry, show (kKeep == kPath) = false by decide, hdepth, hr]
+      · simp [lookupEntry, show (kTypeExact == kPath) = false by decide,
+          show (kTypeExact == kKeep) = false by decide, show (kTypeExact == kCommandLine) = false by decide,
+          show isVT kTypeExact = false by decide, show isWarn kTypeExact = false by decide,
+          show colon ∈ kTypeExact by decide, show isType kTypeExact = true by decide]
+      · simp [lookupEntry, show (kCommandLine == kPath) = false by decide,
+          show (kCommandLine == kKeep) = false by decide, hr]
+    · have hne : e ≠ x := fun hc => hxA (hc ▸ heA)
+      rw [lookupEntry_plainTag _ (hplain e h), hothers e h hne]
+
+/-- Post-tags apply only when no usable version is named: for a request that names a version or an
+expression the answer on the VRO `selectVRO` built is the answer of an initial piece of that VRO which
+does not contain the -T tag — so it does not depend on what the tag is assigned to. -/
+theorem C03_posttag_only_without_version (c : VroCfg) (a : VroArgs) (d : DefaultCfg c)
+    (ht : ∀ t ∈ a.tags, GoodTag c t) (hp : ∀ t ∈ a.postTags, GoodTag c t)
+    (out : VroOut) (hsel : selectVRO c a = .ok out)
+    (C : Ctx) (r : Req) (hn : r.named.isSome = true) (y : Str) (hy : y ∈ a.postTags) (hyt : y ∉ a.tags) :
+    ∃ pre e post, out.vro = pre ++ e :: post ∧ y ∉ pre ++ [e] ∧
+      find C r out.vro = find C r (pre ++ [e]) := by
+  obtain ⟨out', hsel', hv, _, hpos⟩ := C03_posttag_after_version c a d ht hp
+  rw [hsel] at hsel'
+  cases hsel'
+  obtain ⟨pre, e, post, hsplit, he, hpost⟩ := last_VT_split ⟨kVersion, hv, by decide⟩
+  refine ⟨pre, e, post, hsplit, ?_, ?_⟩
+  · intro hm
+    rcases List.mem_append.mp hm with hm | hm
+    · obtain ⟨p1, p2, rfl⟩ := List.append_of_mem hm
+      have := (hpos y hy hyt).2 p1 (p2 ++ e :: post) (by rw [hsplit]; simp) e (by simp)
+      rw [he] at this; cases this
+    · simp only [List.mem_singleton] at hm
+      have := (hp y hy).isVT
+      rw [hm, he] at this; cases this
+  · rw [hsplit]
+    exact C03_named_request_never_falls_through C r pre e post hn he hpost
+
+/-! ## the VRO in force for a table line is the command's VRO as modified by that line only -/
+
+/-- Whatever the lines of a table ask for (`-k`, `-t tag`, `--vro`), (1) the command's VRO is the
+same after the table as before it, and (2) every line that is reached is resolved with the
+command's VRO as modified by *that* line — the earlier lines leave no trace. -/
+theorem C03_table_line_isolated (C : Ctx) (keep : Bool) (flavors vro : List Str) (lines : List TableLine) :
+    (runTable C keep flavors vro lines).vro = vro ∧
+    ∀ (i : Nat) (out : LineOut), (runTable C keep flavors vro lines).outs[i]? = some out →
+      ∃ l, lines[i]? = some l ∧ out = lineOutcome C keep flavors vro l := by
+  induction lines with
+  | nil => simp [runTable]
+  | cons l rest ih =>
+    obtain ⟨ih1, ih2⟩ := ih
+    unfold runTable
+    simp only
+    split
+    · refine ⟨rfl, ?_⟩
+      intro i out h
+      cases i with
+      | zero => simp at h; exact ⟨l, rfl, h.symm⟩
+      | succ i => simp at h
+    · refine ⟨ih1, ?_⟩
+      intro i out h
+      cases i with
+      | zero => simp at h; exact ⟨l, rfl, h.symm⟩
+      | succ i =>
+        simp only [List.getElem?_cons_succ] at h ⊢
+        exact ih2 i out h
+
+/-- non-vacuity: `setupRequired(-k p)` then `setupRequired(p)` again in the example database, with
+`p 1.0` already set up: the first line keeps 1.0, the second is answered by `current` (2.0), and
+the command's VRO has no `keep` afterwards -/
+def exLineKeep : TableLine :=
+  { name := sP, version := none, vexpr := none, lineVro := none, lineTags := [], lineKeep := true,
+    optional := false, already := some (⟨v10, sLinux, 0⟩, none) }
+def exLinePlain : TableLine := { exLineKeep with lineKeep := false }
+example :
+    (runTable exCtx false [sLinux, sGeneric] defaultVro [exLineKeep, exLinePlain]).outs
+      = [.setUp ⟨⟨v10, sLinux, 0⟩, kKeep, kKeep⟩, .setUp ⟨⟨v20, sLinux, 1⟩, sCurrent, sCurrent⟩] ∧
+    (runTable exCtx false [sLinux, sGeneric] defaultVro [exLineKeep, exLinePlain]).vro = defaultVro := by
+  decide
+
+end EupsModel.C03
